@@ -34,7 +34,9 @@ FEATS = ["bit_vectors", "integer_arithmetic", "real_arithmetic", "strings", "arr
 
 
 def has_symbols(t):
-    return any(s[0] in ("SYMBOL", "FUNCTION") for s in subterms(t))
+    """The term has free symbols of its own (a closed term - e.g. an ITE on a closed quantified condition -
+    is a constant as far as linearity is concerned)."""
+    return bool(reffv(t))
 
 
 def reffeatures(b):
